@@ -96,6 +96,14 @@ CHECKS = {
              'CHOICE/ENUMERATED index ordering, numeric_enums) is compared byte-for-byte with vf/models/x691.py; the library must also decode the model bytes.',
         note='Trusts vf/models/x691.py (Annex A.1-A.4 aligned+unaligned gate the run); cases the model declares undecided are counted and skipped; '
              'seven mechanisms where the library differs from X.691 are known findings.'),
+    'C06': dict(
+        category='exploration', design_ref='DESIGN.md 4 C06',
+        technique='runtime monitoring: reference-model oracle (independent executable X.696 Basic OER model from my AST, gated by 56 hand-derived vectors) compared byte-for-byte, and the library decoder run on the model octets',
+        text='Every OER encoding produced by the library for generated modules/values (integer width thresholds, ENUMERATED forms, REAL binary32/64, '
+             'fixed/variable sizes, preambles, extension bitmaps and open types, CHOICE tag octets incl. high tag numbers, numeric_enums) is compared '
+             'with vf/models/x696.py; the library must also decode the model octets to the same value.',
+        note='Trusts vf/models/x696.py (canonical form; the sender options DEFAULT-present are accepted); cases the model declares undecided are '
+             'counted and skipped; six mechanisms where the library differs from X.696 are known findings.'),
     'C07': dict(
         category='exploration', design_ref='DESIGN.md 4 C07',
         technique='runtime monitoring: reference oracle (projection of the version-2 value onto the version-1 AST) over generated version pairs, 7 decoders, both directions',
